@@ -209,3 +209,7 @@ mod tests {
         dbg!(elapsed);
     }
 }
+
+#[cfg(futures_buffered_verif)]
+#[path = "/verif/hooks/buffered_unordered.rs"]
+mod verif_hooks;
